@@ -130,6 +130,9 @@ func cmdVerify(args []string) {
 			lock = true
 		case "-v":
 			verbose = true
+		case "-lockonly":
+			lock = true
+			V.LockOnly = true
 		case "-keep":
 			V.Solver.KeepFiles = true
 		case "-t60":
